@@ -148,6 +148,9 @@ func threadRun(L *LState) {
 			L.closeUpvalues(0)
 			if parent := L.Parent; parent != nil {
 				if L.wrapped {
+					// drop the dead coroutine's values first: with a full registry the push itself would
+					// overflow inside this deferred function and skip the switch back to the resumer
+					L.SetTop(0)
 					L.Push(lv)
 					// the coroutine is dead: control returns to the resumer, where the error is re-raised
 					L.G.CurrentThread = parent
